@@ -335,6 +335,20 @@ def scenario(rng, idx, prop, tag):
             steps = steps[:cut] + [{"c": 1, "sid": 0, "seq": 0, "ty": 0, "min": 0, "fl": 0, "p": raw([]), "eof": True, "pws": []}] + other
         else:
             steps = interleave(rng, [steps, other])
+    if prop == "C14" and rng.random() < 0.5:
+        # hostile octet streams after (or instead of) well-formed traffic
+        k = rng.random()
+        if k < 0.3:
+            junk = [rng.randint(0, 255) for _ in range(rng.choice([1, 5, 11, 12, 13, 40, 300]))]
+        elif k < 0.5:
+            junk = [0xc0, rng.randint(0, 4), rng.randint(0, 255), rng.randint(0, 255), 1, 2, 3, 4, 0, rng.choice([0, 1]), rng.choice([0, 1, 255]), rng.randint(0, 255)] + [rng.randint(0, 255) for _ in range(rng.randint(0, 20))]
+        elif k < 0.7:
+            junk = list(b"PROXY TCP4 10.0.0.1 10.0.0.2 1 2\r\n\x00") + [rng.randint(0, 255) for _ in range(10)]
+        else:
+            body = [255] * rng.choice([5, 8, 9, 20])
+            junk = [0xc0 | rng.randint(0, 1), rng.randint(1, 3), rng.choice([1, 3, 255]), rng.choice([0, 1]), 9, 9, 9, 9, 0, 0, 0, len(body)] + body
+        p = raw(junk); p["k"] = "bytes"
+        steps.insert(rng.randint(0, len(steps)), {"c": 1, "sid": 0, "seq": 0, "ty": 0, "min": 0, "fl": 0, "p": p, "pws": []})
     return {"id": "%s-%d" % (prop.lower(), idx), "cfg": cfg, "conns": conns, "steps": steps,
             "iso": prop == "C09" or rng.random() < 0.1, "log": prop in ("C18",) or rng.random() < 0.15}
 
